@@ -594,7 +594,7 @@ func unconditionalTargetWriteRule(c *Ctx) {
 		o := c.Ob(fn, "target-"+ws.Verb, ws.Call.Instr, c.rule.Statement)
 		var bad []string
 		for _, f := range p.FactsAt(ws.Call.Instr.Block()) {
-			if allowedWriteGuard(p, f) {
+			if p.c18WriteGuardAllowed(f, 0) {
 				continue
 			}
 			bad = append(bad, p.describeFact(f))
@@ -619,7 +619,7 @@ func unconditionalTargetWriteRule(c *Ctx) {
 			o := c.Ob(fn, "source-cache-label", cc.Instr, "a source that is not served by the label-selected cache gets the cache label unconditionally (the selector requires the exact label value)")
 			var bad []string
 			for _, f := range p.FactsAt(cc.Instr.Block()) {
-				if !allowedWriteGuard(p, f) {
+				if !p.c18WriteGuardAllowed(f, 0) {
 					bad = append(bad, p.describeFact(f))
 				}
 			}
